@@ -32,6 +32,7 @@ type LoopSpec struct {
 	Decreases  *Clause
 	Steps      []Clause // hold at the end of every iteration (loop variables = values for the next iteration)
 	Afters     []Clause // hold when the loop terminates normally (edge from its header to the code after it)
+	Returns    []Clause // hold at every `return` statement lexically inside the loop body (`result` visible)
 	Exits      []Clause // hold whenever the loop is left by break/return (not by its normal termination)
 }
 
@@ -43,25 +44,25 @@ type AtSpec struct {
 }
 
 type Unit struct {
-	Pkg      string // import path of the package the contract file belongs to ("" for spec files: name is qualified)
-	Func     string // RelString form, or qualified for spec files
-	Props    []string
-	Trusted  bool // assumed contract (library); body not verified
-	Requires []Clause
-	Ensures  []Clause
-	Modifies []string // raw items; nil = inferred; "nothing"
-	HasMod   bool
-	ModInferred bool // modifies = the inferred write set of the body, plus the listed items
-	Preserves []string // type names: no field of any pre-existing object of these struct types changes
-	Ats      []AtSpec
-	MemoClass string    // memoize CLASS: value class of the build-cache keys made in this function (C13)
-	Pins     []EnumSpec // pins OBJ [except f,...]: every field of OBJ's struct type is assigned on every path
-	Visits   []EnumSpec // visits OBJ FUNC ARGIDX [except f,...]: every (pointer) field of OBJ is passed to FUNC
-	Loops    map[int]*LoopSpec
-	Opts     map[string]bool // e.g. "noinfer", "arith", "nosafety"
-	File     string
-	Line     int
-	Pure     bool
+	Pkg         string // import path of the package the contract file belongs to ("" for spec files: name is qualified)
+	Func        string // RelString form, or qualified for spec files
+	Props       []string
+	Trusted     bool // assumed contract (library); body not verified
+	Requires    []Clause
+	Ensures     []Clause
+	Modifies    []string // raw items; nil = inferred; "nothing"
+	HasMod      bool
+	ModInferred bool     // modifies = the inferred write set of the body, plus the listed items
+	Preserves   []string // type names: no field of any pre-existing object of these struct types changes
+	Ats         []AtSpec
+	MemoClass   string     // memoize CLASS: value class of the build-cache keys made in this function (C13)
+	Pins        []EnumSpec // pins OBJ [except f,...]: every field of OBJ's struct type is assigned on every path
+	Visits      []EnumSpec // visits OBJ FUNC ARGIDX [except f,...]: every (pointer) field of OBJ is passed to FUNC
+	Loops       map[int]*LoopSpec
+	Opts        map[string]bool // e.g. "noinfer", "arith", "nosafety"
+	File        string
+	Line        int
+	Pure        bool
 }
 
 type SpecFunc struct {
@@ -104,20 +105,20 @@ func (c *Contracts) ghostField(owner, name string) *GhostField {
 }
 
 type Contracts struct {
-	Units  map[string]*Unit // key: pkgpath + "::" + func  (or qualified for trusted specs)
-	Specs  map[string]*SpecFunc
-	Axioms []*Axiom
-	Ghosts map[string]*GhostVar
+	Units       map[string]*Unit // key: pkgpath + "::" + func  (or qualified for trusted specs)
+	Specs       map[string]*SpecFunc
+	Axioms      []*Axiom
+	Ghosts      map[string]*GhostVar
 	GhostFields map[string]map[string]*GhostField
-	Files  []string
-	Scan   []string // lines mentioning assume/axiom/trusted (for the evidence 'assumptions' list)
+	Files       []string
+	Scan        []string // lines mentioning assume/axiom/trusted (for the evidence 'assumptions' list)
 }
 
 func NewContracts() *Contracts {
 	return &Contracts{Units: map[string]*Unit{}, Specs: map[string]*SpecFunc{}, Ghosts: map[string]*GhostVar{}, GhostFields: map[string]map[string]*GhostField{}}
 }
 
-var clauseKeywords = map[string]bool{"after": true, "preserves": true, "step": true, "exits": true, "at": true, "memoize": true, "pins": true, "visits": true, "requires": true, "ensures": true, "modifies": true, "invariant": true,
+var clauseKeywords = map[string]bool{"returns": true, "after": true, "preserves": true, "step": true, "exits": true, "at": true, "memoize": true, "pins": true, "visits": true, "requires": true, "ensures": true, "modifies": true, "invariant": true,
 	"decreases": true, "loop": true, "func": true, "spec": true, "define": true, "axiom": true, "ghost": true,
 	"opts": true, "pure": true, "end": true, "trusted": true}
 
@@ -329,15 +330,19 @@ func (c *Contracts) ParseFile(path, pkgPath string) error {
 			}
 			cur.Loops[ord] = ls
 			curLoop = ls
-		case "after":
+		case "after", "returns":
 			if curLoop == nil {
-				return fmt.Errorf("%s:%d: after outside loop", path, r.line)
+				return fmt.Errorf("%s:%d: %s outside loop", path, r.line, r.kw)
 			}
 			cl, err := mkClause(r)
 			if err != nil {
 				return err
 			}
-			curLoop.Afters = append(curLoop.Afters, cl)
+			if r.kw == "returns" {
+				curLoop.Returns = append(curLoop.Returns, cl)
+			} else {
+				curLoop.Afters = append(curLoop.Afters, cl)
+			}
 		case "step", "exits":
 			if curLoop == nil {
 				return fmt.Errorf("%s:%d: %s outside loop", path, r.line, r.kw)
